@@ -44,7 +44,7 @@ comp_kind = st.sampled_from(["zero", "same", "-same", "near+", "near-", "rel", "
 @st.composite
 def normal_st(draw):
     big = draw(st.integers(0, 2))
-    e = draw(st.floats(-60, 60))
+    e = draw(st.one_of(st.floats(-60, 60), st.floats(-300, 300)))
     mant = draw(st.floats(1.0, 9.99))
     s = mant * 10.0 ** e * draw(st.sampled_from([1.0, -1.0]))
     comps = [0.0, 0.0, 0.0]
@@ -66,10 +66,36 @@ def normal_st(draw):
         else:
             rel = 10.0 ** draw(st.floats(-300, 0))
             comps[i] = s * rel * (-1.0 if k == "-rel" else 1.0)
-    as_int = draw(st.booleans()) and all(abs(c) < 1e9 and abs(c) >= 1 or c == 0 for c in comps)
-    if as_int:
+    # the storage type of the components: python float/int, or numpy scalars of a narrower type when representable
+    dt = draw(st.sampled_from(["f8", "f8", "int", "int", "f4", "i4", "u1"]))
+    amax = abs(s)
+    if dt == "int" and not (all(abs(c) >= 1 or c == 0 for c in comps) and amax < 9e18):
+        dt = "f8"
+    if dt == "i4" and not (all(abs(c) >= 1 or c == 0 for c in comps) and amax < 2.1e9):
+        dt = "f8"
+    if dt == "u1":
+        comps = [float(int(abs(c) / amax * 200.0)) for c in comps]     # 0..200, the largest is 200
+    if dt == "f4" and not (1e-30 < amax < 1e38):
+        dt = "f8"
+    if dt in ("int", "i4", "u1"):
         comps = [int(c) for c in comps]
-    return {"comps": comps, "unit": draw(st.sampled_from([None, None, "cm", "au", "km/s"]))}
+    return {"comps": comps, "dtype": dt, "shape1": draw(st.integers(0, 9)) == 0,
+            "unit": draw(st.sampled_from([None, None, "cm", "au", "km/s"]))}
+
+
+_NP = {"f4": np.float32, "i4": np.int32, "u1": np.uint8}
+
+
+def _typed(case):
+    """-> (components as handed to osyris, the same as float64 numbers)"""
+    dt = case.get("dtype", "f8")
+    comps = list(case["comps"])
+    if dt in _NP:
+        comps = [_NP[dt](c) for c in comps]
+    vals = [float(c) for c in comps]
+    if case.get("shape1"):
+        comps = [np.array([c]) for c in comps]
+    return comps, vals
 
 
 def _vec(comps, unit=None):
@@ -77,23 +103,23 @@ def _vec(comps, unit=None):
 
 
 def _xyz(v):
-    return np.array([float(v.x.values), float(v.y.values), float(v.z.values)], dtype=np.float64)
+    return np.array([float(np.asarray(c.values).reshape(-1)[0]) for c in (v.x, v.y, v.z)], dtype=np.float64)
 
 
-def _check_orthonormal(r, n, u, v, tag):
+def _check_orthonormal(r, n, u, v, tag, tol=1e-9):
     ok = True
     for name, w in (("n", n), ("u", u), ("v", v)):
         if not np.all(np.isfinite(w)):
             r.bad([tag, "non-finite-basis"], f"{name} = {w.tolist()}")
             return False
         L = np.linalg.norm(w)
-        if abs(L - 1) > 1e-9:
+        if abs(L - 1) > tol:
             kind = "zero-vector" if L == 0 else "not-unit-length"
             r.bad([tag, kind], f"|{name}| = {L!r}; n={n.tolist()} u={u.tolist()} v={v.tolist()}")
             return False
     for (a, wa), (b, wb) in itertools.combinations((("n", n), ("u", u), ("v", v)), 2):
         d = float(np.dot(wa, wb))
-        if abs(d) > 1e-9:
+        if abs(d) > tol:
             r.bad([tag, "not-perpendicular"], f"{a}.{b} = {d!r}; n={n.tolist()} u={u.tolist()} v={v.tolist()}")
             return False
     return ok
@@ -106,10 +132,17 @@ def _basis(direction, **kw):
 
 
 def normal(case, r):
-    c = case["comps"]
+    given, c = _typed(case)
+    dt = case.get("dtype", "f8")
+    tol = 2e-5 if dt == "f4" else 1e-9          # float32 data give a float32 basis
     nz = [x for x in c if x != 0]
     big = max(abs(x) for x in c)
     r.nontrivial(len(nz) > 1 or False)
+    r.label("dtype_" + dt)
+    if case.get("shape1"):
+        r.label("shape_1")
+    if big >= 1e100 or big <= 1e-100 or (dt in ("int", "i4") and big * big >= 2.0 ** 31):
+        r.label("square_not_representable")
     if len(nz) > 1:
         r.label("not_axis_aligned")
     if c[2] == 0:
@@ -124,19 +157,20 @@ def normal(case, r):
     if 0 < abs(c[2]) <= 1e-150 * max(abs(c[0] + c[1]), 1e-300):
         r.label("slope_overflow_region")
     try:
-        n, u, v = _basis(_vec(c, case["unit"]))
+        with np.errstate(all="ignore"):
+            n, u, v = _basis(_vec(given, case["unit"]))
     except Exception as e:
-        r.bad(["normal", "raises", type(e).__name__], f"{e!r}; normal={c}")
+        r.bad(["normal", "raises", type(e).__name__, "dtype=" + dt], f"{e!r}; normal={c} dtype={dt} shape1={case.get('shape1')}")
         return
-    if not _check_orthonormal(r, n, u, v, "normal"):
+    if not _check_orthonormal(r, n, u, v, "normal", tol):
         return
     want = np.array([float(x) for x in c])
     want = want / big
     want = want / np.linalg.norm(want)
-    if np.linalg.norm(np.cross(n, want)) > 1e-9 or np.dot(n, want) < 0:
+    if np.linalg.norm(np.cross(n, want)) > tol or np.dot(n, want) < 0:
         r.bad(["normal", "n-not-parallel"], f"n={n.tolist()} requested {want.tolist()}")
         return
-    if np.linalg.norm(np.cross(u, v) - n) > 1e-9:
+    if np.linalg.norm(np.cross(u, v) - n) > tol:
         r.bad(["normal", "handedness"], f"u x v = {np.cross(u, v).tolist()} n = {n.tolist()}")
 
 
@@ -224,7 +258,11 @@ def cloud_st(draw):
             "pos_unit": draw(st.sampled_from(["cm", "au", "pc"])), "vel_unit": draw(st.sampled_from(["cm/s", "km/s"])),
             "mass_unit": draw(st.sampled_from(["g", "M_sun"])), "win_unit": draw(st.sampled_from(["cm", "au", "pc"])),
             "axis": [draw(st.floats(-1, 1)) for _ in range(3)], "noise": draw(st.sampled_from([0.0, 0.1, 0.5])),
-            "origin": [draw(st.floats(-1, 1)) for _ in range(3)], "ratio": draw(st.sampled_from([1.0, 1.0, 0.5, 2.0]))}
+            "origin": [draw(st.floats(-1, 1)) for _ in range(3)], "ratio": draw(st.sampled_from([1.0, 1.0, 0.5, 2.0])),
+            "window": draw(st.sampled_from([True, True, False])),
+            "origin_form": draw(st.sampled_from(["pos_unit", "pos_unit", "other_unit", "none"])),
+            "origin_unit": draw(st.sampled_from(["cm", "au", "pc", "km"])),
+            "dtype": draw(st.sampled_from(["f8", "f8", "f4"]))}
 
 
 def views(case, r):
@@ -242,48 +280,76 @@ def views(case, r):
     rel = d * rad[:, None]
     vel = np.cross(axis, rel) * rng.uniform(0.5, 2.0, n)[:, None] + case["noise"] * rng.normal(size=(n, 3))
     mass = rng.uniform(0.5, 2.0, n)
-    origin = np.array(case["origin"])
+    oform = case.get("origin_form", "pos_unit")
+    origin = np.zeros(3) if oform == "none" else np.array(case["origin"])
     pos = rel + origin
+    f4 = case.get("dtype", "f8") == "f4"
+    if f4:
+        # the numbers osyris sees are the float32 roundings; the reference works on exactly those
+        pos, vel, mass = (a.astype(np.float32).astype(np.float64) for a in (pos, vel, mass))
+        origin = origin.astype(np.float32).astype(np.float64)
+        rel = pos - origin
+        rad = np.linalg.norm(rel, axis=1)
+    window = case.get("window", True)
+    if not window:
+        # no window given: the selection sphere has half the mean extent of the positions as its radius
+        R = 0.5 * float(np.sum(pos.max(axis=0) - pos.min(axis=0))) / 3.0
+        if np.any(np.abs(rad - R) < 0.05 * R):
+            r.label("skipped_cell_near_sphere")
+            return
     inside = rad < R
     L = np.sum(mass[inside, None] * np.cross(rel[inside], vel[inside]), axis=0)
     scale = np.sum(mass[inside] * np.linalg.norm(rel[inside], axis=1) * np.linalg.norm(vel[inside], axis=1))
-    if inside.sum() < 2 or np.linalg.norm(L) < 1e-3 * scale:
+    if inside.sum() < 2 or np.linalg.norm(L) < (0.05 if f4 else 1e-3) * scale:
         r.label("skipped_small_angular_momentum")
         return
     r.nontrivial()
-    r.label("view_" + case["view"])
+    r.label("view_" + case["view"], "window_given" if window else "window_omitted", "origin_" + oform,
+            "cloud_" + case.get("dtype", "f8"))
     pu, vu, mu, wu = case["pos_unit"], case["vel_unit"], case["mass_unit"], case["win_unit"]
-    data = {"position": osyris.Vector(*[osyris.Array(values=pos[:, i].copy(), unit=pu) for i in range(3)]),
-            "velocity": osyris.Vector(*[osyris.Array(values=vel[:, i].copy(), unit=vu) for i in range(3)]),
-            "mass": osyris.Array(values=mass.copy(), unit=mu)}
-    # window: 0.25 (dx+dy) = R in position units
-    fpos, fwin = um.parse(pu)[0], um.parse(wu)[0]
-    total = 4.0 * R * fpos / fwin
-    dx = total / (1 + case["ratio"])
-    dy = total - dx
-    dxq = dx * osyris.units(wu)
-    dyq = dy * osyris.units(wu)
-    org = osyris.Vector(*[osyris.Array(values=origin[i], unit=pu) for i in range(3)])
+    dt = np.float32 if f4 else np.float64
+    data = {"position": osyris.Vector(*[osyris.Array(values=pos[:, i].astype(dt), unit=pu) for i in range(3)]),
+            "velocity": osyris.Vector(*[osyris.Array(values=vel[:, i].astype(dt), unit=vu) for i in range(3)]),
+            "mass": osyris.Array(values=mass.astype(dt), unit=mu)}
+    kw = {}
+    if window:
+        # window: 0.25 (dx+dy) = R in position units
+        fpos, fwin = um.parse(pu)[0], um.parse(wu)[0]
+        total = 4.0 * R * fpos / fwin
+        dx = total / (1 + case["ratio"])
+        dy = total - dx
+        kw["dx"] = dx * osyris.units(wu)
+        kw["dy"] = dy * osyris.units(wu)
+    if oform == "pos_unit":
+        kw["origin"] = osyris.Vector(*[osyris.Array(values=dt(origin[i]), unit=pu) for i in range(3)])
+    elif oform == "other_unit":
+        ou = case["origin_unit"]
+        f = um.parse(pu)[0] / um.parse(ou)[0]
+        kw["origin"] = osyris.Vector(*[osyris.Array(values=origin[i] * f, unit=ou) for i in range(3)])
+    tol = 2e-4 if f4 else 1e-7
     try:
         word = case["view"]
         word = {"lower": word, "upper": word.upper(), "title": word.title(),
                 "mixed": "".join(ch.upper() if i % 2 else ch for i, ch in enumerate(word))}[case.get("spell", "lower")]
-        nb, ub, vb = _basis(word, data=data, dx=dxq, dy=dyq, origin=org)
+        with np.errstate(all="ignore"):
+            nb, ub, vb = _basis(word, data=data, **kw)
     except Exception as e:
-        r.bad(["views", "raises", case["view"], type(e).__name__], f"{e!r}")
+        r.bad(["views", "raises", case["view"], type(e).__name__, "cloud=" + case.get("dtype", "f8")],
+              f"{e!r}; window={window} origin={oform}")
         return
-    if not _check_orthonormal(r, nb, ub, vb, "views"):
+    if not _check_orthonormal(r, nb, ub, vb, "views", 2e-5 if f4 else 1e-9):
         return
     Lh = L / np.linalg.norm(L)
     if case["view"] == "top":
-        if np.linalg.norm(np.cross(nb, Lh)) > 1e-7 or np.dot(nb, Lh) < 0:
-            r.bad(["views", "top-not-along-L"], f"n = {nb.tolist()}, L/|L| = {Lh.tolist()} ({int(inside.sum())} of {n} cells inside)")
+        if np.linalg.norm(np.cross(nb, Lh)) > tol or np.dot(nb, Lh) < 0:
+            r.bad(["views", "top-not-along-L"], f"n = {nb.tolist()}, L/|L| = {Lh.tolist()} ({int(inside.sum())} of {n} cells inside; "
+                  f"window={window} origin={oform})")
     else:
-        if abs(np.dot(nb, Lh)) > 1e-7:
+        if abs(np.dot(nb, Lh)) > tol:
             r.bad(["views", "side-L-not-in-plane"], f"n.L = {np.dot(nb, Lh)!r}")
             return
         inplane = np.dot(Lh, ub) * ub + np.dot(Lh, vb) * vb
-        if np.linalg.norm(inplane - Lh) > 1e-7:
+        if np.linalg.norm(inplane - Lh) > tol:
             r.bad(["views", "side-L-not-in-span"], f"L = {Lh.tolist()} projected {inplane.tolist()}")
 
 
@@ -291,7 +357,9 @@ def subs(ctx):
     return [
         Sub("letters", letters, cases=_letter_cases()),
         Sub("normal", normal, strategy=normal_st(), quick=3000, thorough=30000,
-            required={"z_zero": 0.1, "x_plus_y_zero": 0.03, "tiny_component": 0.2, "slope_overflow_region": 0.05}),
+            required={"z_zero": 0.1, "x_plus_y_zero": 0.03, "tiny_component": 0.2, "slope_overflow_region": 0.05,
+                      "square_not_representable": 0.15, "dtype_f4": 0.03, "dtype_i4": 0.02, "dtype_int": 0.05, "shape_1": 0.05}),
         Sub("user_basis", user_basis, strategy=basis_st(), quick=400, thorough=3000),
-        Sub("views", views, strategy=cloud_st(), quick=400, thorough=3000, required={"view_top": 0.3, "view_side": 0.3}),
+        Sub("views", views, strategy=cloud_st(), quick=400, thorough=3000, required={"view_top": 0.25, "view_side": 0.25, "window_omitted": 0.1, "origin_other_unit": 0.1,
+                      "origin_none": 0.1, "cloud_f4": 0.1}),
     ]
